@@ -138,6 +138,10 @@ int main(int argc, char **argv) {
                 if (e.eps <= 2) for (long p : {2L, 16L}) for (long w : (thorough ? std::vector<long>{27, 114, 201, 228} : std::vector<long>{27, 228})) { Task t; t.cfg = c; t.kind = 3; t.word_lo = w; t.word_hi = w + 1; t.rep = 11000; t.n = 4; t.p = p; tasks.push_back(t); }
             }
             if ((fam & 4) && wide) {
+                // the same density members placed at 3/4 of the key domain (64-bit keys there are not exactly representable as double)
+                for (long w : (thorough ? std::vector<long>{0, 27, 57, 114, 201, 228, 255} : std::vector<long>{27, 114, 228})) { Task t; t.cfg = c; t.kind = 3; t.word_lo = w; t.word_hi = w + 1; t.rep = 300; t.n = 4; t.p = 1; t.first = 1; tasks.push_back(t); }
+            }
+            if ((fam & 4) && wide) {
                 // density family: all 4-digit (quick) / 5-digit (thorough) words of gap multipliers, 300 clusters per digit
                 long width = thorough ? 5 : 4, nwords = 1; for (long i = 0; i < width; ++i) nwords *= 4;
                 for (long w = 0; w < nwords; w += 8) { Task t; t.cfg = c; t.kind = 3; t.word_lo = w; t.word_hi = std::min(nwords, w + 8); t.rep = 300; t.n = width; tasks.push_back(t); }
@@ -151,7 +155,7 @@ int main(int argc, char **argv) {
             }
         }
         fam_bounds = thorough ? "; span family (clusters spread over the whole domain of the key type, 18 cluster counts x 9 end offsets, every configuration); seam family n=32768+{0,1,7}, chunks {2,3,4,5,7,16,19,20}, all 4096 window words at every seam (and at the first/last seam alone); blocks family: 1 block x rep {1,50,400}, 2 blocks x rep {1,20}; density family: all 1024 five-digit words x 300 clusters"
-                              : "; span family (clusters spread over the whole domain of the key type, 11 cluster counts x 9 end offsets, every configuration); seam family n=32768, chunks {2,20}, all 4096 window words at every seam; blocks family: 1 block x rep {1,50}, 2 blocks x rep 1; density family: all 256 four-digit words of gap multipliers x 300 clusters (several segments per upper level), skewed variants with a 3x/30x jump, and 44000-cluster variants (plain, and 'chunk-tail' with a key-space jump 1/3 clusters before every chunk boundary over a zig-zag background) whose upper levels are built by the chunked builder; long-run family: a duplicate run from around a chunk start to around a chunk end, every start/end offset";
+                              : "; span family (clusters spread over the whole domain of the key type, 11 cluster counts x 9 end offsets, every configuration); seam family n=32768, chunks {2,20}, all 4096 window words at every seam; blocks family: 1 block x rep {1,50}, 2 blocks x rep 1; density family (also placed at 3/4 of the key domain for three words): all 256 four-digit words of gap multipliers x 300 clusters (several segments per upper level), skewed variants with a 3x/30x jump, and 44000-cluster variants (plain, and 'chunk-tail' with a key-space jump 1/3 clusters before every chunk boundary over a zig-zag background) whose upper levels are built by the chunked builder; long-run family: a duplicate run from around a chunk start to around a chunk end, every start/end offset";
     }
 
     if (asan_quick) std::stable_sort(tasks.begin(), tasks.end(), [](const Task &a, const Task &b) { return (a.kind != 0) > (b.kind != 0); });   // few large-input cases first
@@ -168,8 +172,8 @@ int main(int argc, char **argv) {
             }
         } else if (t.kind == 3) {
             for (long w = t.word_lo; w < t.word_hi && !run.deadline_passed(); ++w) {
-                if (t.seam > 0 && t.seam < 4 && w % 4 != 0) continue;
-                ks::FamilySpec s; s.kind = "density"; s.chunks = t.p; s.rep = t.rep; s.width = t.n; s.word = w; s.seam = t.seam;
+                if (t.seam > 0 && t.seam < 4 && w % 4 != 0 && !t.first) continue;
+                ks::FamilySpec s; s.kind = "density"; s.chunks = t.p; s.rep = t.rep; s.width = t.n; s.word = w; s.seam = t.seam; s.top = t.first;
                 if (w == t.word_lo + 3 && w % 64 == 3) run.sample(std::string("cfg=") + e.name + " family=" + s.str());
                 e.family(run, cn, prop, s);
             }
